@@ -53,6 +53,22 @@ class Ctx:
         return _DUMPS[crate]
 
 
+def prewarm(log, need_scenarios=True, need_kernels=True):
+    """build once, before workers are forked: MIR dumps of both crates, replay binaries."""
+    ctx = Ctx(log)
+    ctx.program("nomt")
+    if need_scenarios:
+        try:
+            scenarios_bin(log)
+        except Exception as e:
+            log("      scenario binary could not be built: %s" % str(e)[-300:])
+    if need_kernels:
+        try:
+            kernels_bin(log)
+        except Exception as e:
+            log("      kernels binary could not be built: %s" % str(e)[-300:])
+
+
 def kernels_bin(log):
     global _KERNELS
     if _KERNELS is None:
@@ -238,8 +254,19 @@ def run_scenario(name, log, outdir):
     Returns (violated: bool|None, transcript path). None = scenario could not run."""
     os.makedirs(outdir, exist_ok=True)
     b = scenarios_bin(log)
-    d = os.path.join(BUILD, "scen", name)
+    # obligations run in parallel worker processes: private working directory per process
+    d = os.path.join(BUILD, "scen", "%s-%d" % (name, os.getpid()))
     tr = os.path.join(outdir, name + ".txt")
+    try:
+        return _run_scenario(name, log, outdir, b, d, tr)
+    finally:
+        import shutil
+        shutil.rmtree(d, ignore_errors=True)
+        for suffix in ("-empty", "-existing"):
+            shutil.rmtree(d + suffix, ignore_errors=True)
+
+
+def _run_scenario(name, log, outdir, b, d, tr):
     if name in ("c04_recover_fsync", "c03_recover_order"):
         subprocess.run([b, "c04_crash_post_meta", d], stdout=subprocess.DEVNULL, stderr=subprocess.DEVNULL)
         st = os.path.join(outdir, name + ".strace")
@@ -345,9 +372,13 @@ def run_scenario(name, log, outdir):
         return bool(problems), tr
     if name in ("c14_fault_sweep", "c14_fault_sweep_rollback"):
         import faultsweep
-        wd = os.path.join(BUILD, "scen", name)
+        wd = d + "-work"
         os.makedirs(wd, exist_ok=True)
-        violated, problems = faultsweep.run(b, wd, tr, only_files=r"rollback" if name.endswith("rollback") else None)
+        try:
+            violated, problems = faultsweep.run(b, wd, tr, only_files=r"rollback" if name.endswith("rollback") else None)
+        finally:
+            import shutil
+            shutil.rmtree(wd, ignore_errors=True)
         return violated, tr
     if name == "c04_create_durable":
         dbdir = os.path.abspath(d)
@@ -628,7 +659,7 @@ def _run_path_queries(prop, o, res, queries, encoded, timeout_ms, log, t0):
             # several scenarios may be attached (different ways the same path shows up natively): the first
             # that reproduces is the replay
             for scen in ([q.scenario] if isinstance(q.scenario, str) else list(q.scenario)):
-                violated, tr = run_scenario(scen, log, os.path.join(BUILD, "replay", prop))
+                violated, tr = run_scenario(scen, log, os.path.join(BUILD, "replay", prop, o["name"]))
                 res["native_replays"] = res.get("native_replays", 0) + 1
                 if violated:
                     break
@@ -647,9 +678,9 @@ def _run_path_queries(prop, o, res, queries, encoded, timeout_ms, log, t0):
     # also executed natively; it must agree with the solver (hold). A scenario that shows a violation
     # although the path query is unsat is reported as a violation (it is its own native replay).
     if res["status"] == "OK":
-        for scen in sorted({sc for q in queries if q.scenario and q.expect == "unsat"
+        for scen in sorted({sc for q in queries if q.scenario and q.expect == "unsat" and getattr(q, "validate", True)
                             for sc in ([q.scenario] if isinstance(q.scenario, str) else q.scenario)}):
-            violated, tr = run_scenario(scen, log, os.path.join(BUILD, "replay", prop))
+            violated, tr = run_scenario(scen, log, os.path.join(BUILD, "replay", prop, o["name"]))
             res["native_replays"] = res.get("native_replays", 0) + 1
             if violated:
                 res["violations"].append({"description": "scenario %s violates the property natively although the path query is unsat" % scen,
